@@ -136,6 +136,11 @@ func Modify(node Node, f func(Node) (Node, bool)) (Node, bool) { //nolint:funlen
 			if !ok {
 				return nil, false
 			}
+			if _, dup := newNode.Pairs[newKey]; dup {
+				// f returned the same node for two keys (a macro argument unquoted twice): Pairs is keyed by
+				// node identity, a copy keeps the second pair.
+				newKey, _ = Modify(newKey, func(n Node) (Node, bool) { return n, true })
+			}
 			newNode.Order = append(newNode.Order, newKey)
 			newNode.Pairs[newKey], cont = Modify(val, f)
 			if !cont {
@@ -147,8 +152,8 @@ func Modify(node Node, f func(Node) (Node, bool)) (Node, bool) { //nolint:funlen
 		n := *node
 		return f(&n) // silly go optimizes &(*node) to node (ptr) so need 2 steps
 	case *IntegerLiteral:
-		n := node
-		return f(n)
+		n := *node
+		return f(&n)
 	case *FloatLiteral:
 		n := *node
 		return f(&n)
